@@ -208,4 +208,7 @@ _CORE = {'name': 'core-expression-cases', 'driver': 'feelcases', 'args': ['/veri
          'functions': ['build_if', 'build_and / build_or', 'build_between', 'build_in', 'build_filter', 'build_path', 'build_for / build_some / build_every', 'arithmetic and comparison builders'],
          'bound': '86 expressions with the value DMN 1.3 section 10.3.2 assigns: if with true / false / null conditions (a condition that is not true takes the else branch), the three-valued and / or tables, between, in over lists / ranges / unary tests, '
                   'filters by predicate and by position, paths, context entries, for / some / every over lists and ranges (also empty), arithmetic with null and mixed kinds, comparisons, instance of, invocation (also recursive)'}
-BOUNDED = {'C01': [_EQ, _CORE], 'C09': [_EQ]}
+_LOGIC = {'name': 'logic-over-non-booleans', 'driver': 'feelcases', 'args': ['/verif/replay/cases/C09_logic.txt', 'all'],
+          'functions': ['build_and', 'build_or'],
+          'bound': '22 conjunctions / disjunctions with an operand that is not a boolean (one-item and longer lists of booleans, strings, numbers, contexts, nested lists): such an operand counts as null - no singleton conversion'}
+BOUNDED = {'C01': [_EQ, _CORE, _LOGIC], 'C09': [_EQ, _LOGIC]}
